@@ -43,8 +43,28 @@ struct Blk {
   size_t len   = 0;  // bytes the harness may use (requested size, or `allocated` of the 2-arg overload)
   uint64_t id  = 0;  // 0 = not tracked (unusable: violation already reported)
   uint32_t aux = 0;  // adapter specific (size index, variant, slot)
+  void* handle = nullptr; // adapter specific (e.g. the owning smart pointer)
   int16_t owner = -1; // pool thread that allocated it (-1 main outside a region)
+  uint8_t ktag  = 0;  // selects CaseCtx::ktag (entry point the block came from)
   bool ok() const { return id != 0; }
+};
+
+// ------------------------------------------------------------------ OS mappings (c09_main.cpp)
+// The harness executable interposes mmap/munmap and records every anonymous
+// mapping whose length is a multiple of 2 MB - that is how Galois' allocPages()
+// obtains page-pool pages, per-thread storage regions and large arrays. This
+// gives the oracle the exact memory an allocator layered on the page pool
+// owns, without touching /repo.
+struct OsHit {
+  uintptr_t lo = 0, hi = 0;
+};
+bool osFind(const void* p, OsHit* hit);
+uint64_t osMappingsSeen();
+enum Extent {
+  EXT_NONE = 0,
+  EXT_WITHIN_SLICE,   // block must not leave the 2 MB page (slice of a recorded mapping) it starts in
+  EXT_WHOLE_SLICE,    // block must start at a 2 MB page obtained from the OS and stay inside it
+  EXT_WITHIN_MAPPING  // block must lie inside one recorded mapping
 };
 
 // ------------------------------------------------------------------ per-case context
@@ -52,11 +72,14 @@ struct CaseCtx {
   Harness& H;
   std::string comp;
   unsigned maxT = 1, nsock = 1;
+  Extent extent = EXT_NONE;
+  const char* ktag[4] = {"", "alloc2-", "", ""}; // key prefix by Blk::ktag (different entry points, different defects)
+  std::atomic<bool> poisoned{false}; // the instance under test is in a state where going on is pointless/unsafe
 
   // measured counters (relaxed; summed into the evidence through obs)
   std::atomic<uint64_t> allocs{0}, frees{0}, clears{0}, xfrees{0}, reuses{0}, canaryChecks{0},
       canaryBytes{0}, bytesRequested{0}, quiescentChecks{0}, nullReturns{0}, maxLive{0}, curLive{0},
-      zeroLen{0}, violationsSeen{0};
+      zeroLen{0}, violationsSeen{0}, extentChecked{0}, extentUnknown{0};
 
   std::mutex vm;
   std::vector<std::pair<std::string, std::string>> pending; // (key, detail)
@@ -75,7 +98,7 @@ struct CaseCtx {
     nsock    = tp.getMaxSockets();
   }
 
-  std::string key(const char* kind) const { return "C09:" + comp + ":" + kind; }
+  std::string key(const char* kind, unsigned tag = 0) const { return "C09:" + comp + ":" + ktag[tag & 3] + kind; }
 
   // thread-safe; at most 3 witnesses per key and case are kept
   void report(const std::string& k, const std::string& detail) {
@@ -128,12 +151,14 @@ inline uint64_t canarySeed(uint64_t id) { return id * 0xD6E8FEB86659FD93ULL + 0x
 // alignment and disjointness from every live block, then writes the canary.
 // Returns a Blk with id==0 when the block must not be touched.
 inline Blk onAlloc(CaseCtx& c, void* p, size_t len, size_t align, uint32_t aux, int owner,
-                   const std::string& how = std::string()) {
+                   const std::string& how = std::string(), unsigned ktag = 0, bool foreignOrigin = false) {
+  // foreignOrigin: the block is documented to come from malloc (fallback paths), not from Galois' own pages
   Blk b;
   b.p     = p;
   b.len   = len;
   b.aux   = aux;
   b.owner = (int16_t)owner;
+  b.ktag  = (uint8_t)ktag;
   c.allocs.fetch_add(1, std::memory_order_relaxed);
   c.bytesRequested.fetch_add(len, std::memory_order_relaxed);
   if (!len) {
@@ -142,17 +167,55 @@ inline Blk onAlloc(CaseCtx& c, void* p, size_t len, size_t align, uint32_t aux, 
   }
   if (!p) {
     c.nullReturns.fetch_add(1, std::memory_order_relaxed);
-    c.report(c.key("null-block"), J().kv("requested", len).kv("how", how).kv("thread", owner).str());
+    c.report(c.key("null-block", ktag), J().kv("requested", len).kv("how", how).kv("thread", owner).str());
     return b;
   }
+  if (c.extent != EXT_NONE && foreignOrigin) {
+    c.extentUnknown.fetch_add(1, std::memory_order_relaxed); // malloc fallback: nothing known, nothing demanded
+  } else if (c.extent != EXT_NONE) {
+    OsHit m;
+    if (!osFind(p, &m)) {
+      // every page of the page pool / per-thread region / large array was obtained through the recorded mmap
+      c.report(c.key("block-outside-allocator-memory", ktag),
+               J().kv("ptr", hexp(p)).kv("len", len).kv("how", how).kv("thread", owner)
+                   .kv("what", "pointer is in no memory the Galois page allocator ever obtained").str());
+      c.poisoned.store(true, std::memory_order_relaxed);
+      return b; // never written
+    } else {
+      c.extentChecked.fetch_add(1, std::memory_order_relaxed);
+      uintptr_t lo = (uintptr_t)p, hi = lo + len;
+      uintptr_t sliceLo = m.lo + (lo - m.lo) / PAGE2M * PAGE2M, sliceHi = sliceLo + PAGE2M;
+      bool bad = false;
+      const char* why = "";
+      if (c.extent == EXT_WITHIN_MAPPING) {
+        bad = hi > m.hi;
+        why = "block reaches beyond the OS mapping it starts in";
+      } else if (c.extent == EXT_WITHIN_SLICE) {
+        bad = hi > sliceHi;
+        why = "block reaches beyond the 2MB page it starts in";
+      } else {
+        bad = lo != sliceLo || hi > sliceHi;
+        why = "block does not start at a 2MB page of the pool or leaves it";
+      }
+      if (bad) {
+        c.report(c.key("block-overruns-chunk", ktag),
+                 J().kv("ptr", hexp(p)).kv("len", len).kv("how", how).kv("what", why)
+                     .kv("page", hexp((void*)sliceLo)).kv("page_end", hexp((void*)sliceHi))
+                     .kv("mapping", hexp((void*)m.lo)).kv("mapping_end", hexp((void*)m.hi))
+                     .kv("bytes_beyond", (uint64_t)(hi > sliceHi ? hi - sliceHi : 0)).str());
+        c.poisoned.store(true, std::memory_order_relaxed);
+        return b; // never written
+      }
+    }
+  }
   if ((uintptr_t)p % align) {
-    c.report(c.key("misaligned"),
+    c.report(c.key("misaligned", ktag),
              J().kv("ptr", hexp(p)).kv("requested", len).kv("demanded_alignment", align).kv("how", how).str());
   }
   uint64_t id = g_nextBlockId.fetch_add(1, std::memory_order_relaxed);
   vref::ShadowEntry other;
   if (!g_shadow.insert(p, len, id, (uint32_t)(owner + 1), &other)) {
-    c.report(c.key("overlap-live"),
+    c.report(c.key("overlap-live", ktag),
              J().kv("new_block", hexp(p)).kv("new_len", len).kv("how", how).kv("thread", owner)
                  .kv("live_block", hexp((void*)other.lo)).kv("live_len", (uint64_t)(other.hi - other.lo))
                  .kv("live_id", other.id).kv("live_allocated_by_thread", (int)other.tag - 1).str());
@@ -185,7 +248,7 @@ inline bool checkCanary(CaseCtx& c, const Blk& b, const char* when) {
     snprintf(t, sizeof t, "%02x", ((unsigned char*)b.p)[i]);
     hex += t;
   }
-  c.report(c.key("canary-corrupt"),
+  c.report(c.key("canary-corrupt", b.ktag),
            J().kv("block", hexp(b.p)).kv("len", b.len).kv("first_foreign_offset", off)
                .kv("expected", (unsigned)vref::canary_byte(canarySeed(b.id), off)).kv("found", (unsigned)got)
                .kv("bytes_at_offset", hex).kv("when", when).kv("allocated_by_thread", (int)b.owner).str());
@@ -280,7 +343,8 @@ inline J& commonObs(J& j, CaseCtx& c) {
       .kv("cross_thread_frees", c.xfrees.load()).kv("address_reuses", c.reuses.load())
       .kv("canary_checks", c.canaryChecks.load()).kv("canary_bytes", c.canaryBytes.load())
       .kv("bytes_requested", c.bytesRequested.load()).kv("quiescent_checks", c.quiescentChecks.load())
-      .kv("null_returns", c.nullReturns.load()).kv("oracle_violations", c.violationsSeen.load());
+      .kv("null_returns", c.nullReturns.load()).kv("oracle_violations", c.violationsSeen.load())
+      .kv("page_extent_checks", c.extentChecked.load()).kv("page_extent_unknown_origin", c.extentUnknown.load());
   return j;
 }
 
